@@ -10,6 +10,7 @@ import (
 	"sort"
 	"strings"
 	"sync"
+	"time"
 
 	"google.golang.org/protobuf/proto"
 
@@ -36,12 +37,13 @@ type c10File struct {
 }
 
 type c10Case struct {
-	Index     int        `json:"index"`
-	Stream    string     `json:"stream"` // transmit | drop | dup | flip | drop-done | abort | none
-	K         int        `json:"k"`
-	StageMode string     `json:"stage_mode"`
-	Earlier   bool       `json:"earlier_interrupted_round"`
-	Files     []*c10File `json:"files"`
+	Index       int        `json:"index"`
+	Stream      string     `json:"stream"` // transmit | drop | dup | flip | drop-done | abort | none
+	K           int        `json:"k"`
+	StageMode   string     `json:"stage_mode"`
+	CrossDevice bool       `json:"root_on_other_device_than_staging"`
+	Earlier     bool       `json:"earlier_interrupted_round"`
+	Files       []*c10File `json:"files"`
 }
 
 func c10Size(r *rand.Rand) int {
@@ -107,6 +109,7 @@ func c10() {
 		})
 	}
 	q.wait()
+	c10LargeCancel(r)
 	r.Assume("the harness plays the peer: it calls Scan, Stage, feeds the returned receiver (real rsync.Transmit from a source root, or a recorded stream replayed through rsync.DecodeToReceiver with tampering/abort), then Transition, on a real local endpoint (beta) over a real root")
 	r.Assume("'bad staged data' is asserted only where the harness knows the delivered bytes differ from the plan (source changed after the plan, source missing, nothing sent, files after an abort point); for tampered streams only 'claimed => digest matches' and 'no foreign content' are asserted")
 	r.Finish("random roots and plans (creates, swaps derived by edits so that block operations occur, nested creations, copies of existing root files) x feed mode per file x stream mode per case (+ an interrupted earlier round leaving staged content, junk in the staging root); distinct = (stream mode, feed, change kind, size class, outcome)", 30)
@@ -129,6 +132,16 @@ func c10RunCase(r *vk.Run, rng *rand.Rand, index int, dir string) (*c10Case, map
 	root := filepath.Join(dir, "beta")
 	src := filepath.Join(dir, "alpha")
 	c := &c10Case{Index: index}
+	// Every fourth case keeps the root on tmpfs while the staging root lives in the data
+	// directory on ext4: moving staged files into place then really crosses devices and
+	// takes the copy-through-temporary path of core.Transition.
+	if index%4 == 3 {
+		if d, err := shmDir(fmt.Sprintf("C10-case-%d", index)); err == nil {
+			defer os.RemoveAll(d)
+			root = filepath.Join(d, "beta")
+			c.CrossDevice = true
+		}
+	}
 	fail := func(what string, err error) (*c10Case, map[string]any) {
 		r.Inconclusive("harness:" + what)
 		fmt.Printf("C10 case %d: harness step failed (%s): %v\n", index, what, err)
@@ -238,6 +251,9 @@ func c10RunCase(r *vk.Run, rng *rand.Rand, index int, dir string) (*c10Case, map
 		cfg.StageMode, c.StageMode = synchronization.StageMode_StageModeNeighboring, "neighboring"
 	default:
 		cfg.StageMode, c.StageMode = synchronization.StageMode_StageModeInternal, "internal"
+	}
+	if c.CrossDevice {
+		cfg.StageMode, c.StageMode = synchronization.StageMode_StageModeMutagen, "mutagen"
 	}
 	c.Earlier = rng.Intn(3) == 0
 	fmt.Printf("C10 case %d: stream=%s stage=%s earlier=%v files=%d\n", index, c.Stream, c.StageMode, c.Earlier, len(c.Files))
@@ -575,7 +591,10 @@ func c10RunCase(r *vk.Run, rng *rand.Rand, index int, dir string) (*c10Case, map
 			r.Count("files_served_locally", 1)
 		}
 		outcome[f.Path] = o
-		r.Distinct(strings.Join([]string{c.Stream, f.Feed, f.Kind, sizeClass(f.Size), o}, "|"))
+		r.Distinct(strings.Join([]string{c.Stream, f.Feed, f.Kind, sizeClass(f.Size), o, fmt.Sprint(c.CrossDevice)}, "|"))
+		if c.CrossDevice && claim {
+			r.Count("files_applied_across_devices", 1)
+		}
 	}
 	_ = anyBad
 	// Nothing may be left in the staging root after Transition (it is wiped by Finalize) — not
@@ -590,4 +609,111 @@ func c10RunCase(r *vk.Run, rng *rand.Rand, index int, dir string) (*c10Case, map
 	sort.Strings(keys)
 	obs["outcomes"] = keys
 	return c, obs
+}
+
+// c10LargeCancel cancels Transition while a large staged file (> 2 x 32 MiB) is being
+// copied across devices into the root: the root must never hold a file at that path whose
+// digest is neither the old nor the planned one, and the result must not claim the planned
+// file unless the disk holds it. The cancellation is timed (a few delays are tried); the
+// verdict does not depend on when it lands, only the non-triviality count does.
+func c10LargeCancel(r *vk.Run) {
+	const size = 72 << 20
+	rng := r.Rand("large-cancel")
+	delays := []int{3, 12, 30, 60}
+	if !r.Quick() {
+		delays = []int{1, 3, 6, 12, 20, 30, 45, 60, 90, 120, 150, 200}
+	}
+	planned := make([]byte, size)
+	for i, delay := range delays {
+		copy(planned, token(rng, 64))
+		digest := sha1Of(planned)
+		swap := i%2 == 1
+		fmt.Printf("C10 large cross-device copy cancelled after %d ms (swap=%v)\n", delay, swap)
+		shm, err := shmDir(fmt.Sprintf("C10-large-%d", i))
+		if err != nil {
+			r.Inconclusive("harness:shm")
+			return
+		}
+		dir := filepath.Join(r.Scratch(), fmt.Sprintf("large-%d", i))
+		root, src := filepath.Join(shm, "beta"), filepath.Join(dir, "alpha")
+		func() {
+			defer os.RemoveAll(shm)
+			defer os.RemoveAll(dir)
+			os.MkdirAll(root, 0o755)
+			os.MkdirAll(src, 0o755)
+			os.WriteFile(filepath.Join(root, "other"), []byte("other"), 0o644)
+			var oldDigest []byte
+			if swap {
+				old := token(rng, 5000)
+				os.WriteFile(filepath.Join(root, "big"), old, 0o644)
+				oldDigest = sha1Of(old)
+			}
+			if err := os.WriteFile(filepath.Join(src, "big"), planned, 0o644); err != nil {
+				r.Inconclusive("harness:source")
+				return
+			}
+			le, err := newLocalEndpoint("C10", root, &synchronization.Configuration{WatchMode: synchronization.WatchMode_WatchModeNoWatch})
+			if err != nil {
+				r.Inconclusive("harness:endpoint")
+				return
+			}
+			defer le.shutdown()
+			snap, err := scanEndpoint(le.ep, false)
+			if err != nil {
+				r.Inconclusive("harness:scan")
+				return
+			}
+			changes := []*core.Change{{Path: "big", Old: entryAt(snap.Content, "big"), New: &core.Entry{Kind: core.EntryKind_File, Digest: digest}}}
+			filtered, sigs, receiver, err := le.ep.Stage([]string{"big"}, [][]byte{digest})
+			if err != nil || receiver == nil {
+				r.Inconclusive("harness:stage")
+				return
+			}
+			if err := rsync.Transmit(src, filtered, sigs, receiver); err != nil {
+				r.Inconclusive("harness:transmit")
+				return
+			}
+			ctx, cancel := context.WithCancel(context.Background())
+			defer cancel()
+			timer := time.AfterFunc(time.Duration(delay)*time.Millisecond, cancel)
+			defer timer.Stop()
+			results, problems, _, err := le.ep.Transition(ctx, changes)
+			if err != nil || len(results) != 1 {
+				r.Inconclusive("harness:transition")
+				return
+			}
+			r.Eval(1)
+			res := results[0]
+			claim := res != nil && res.Kind == core.EntryKind_File && bytes.Equal(res.Digest, digest)
+			disk, onDisk := fileSha1(filepath.Join(root, "big"))
+			preempted := false
+			var probs []string
+			for _, p := range problems {
+				probs = append(probs, p.Path+": "+p.Error)
+				if strings.Contains(p.Error, "cancelled") {
+					preempted = true
+				}
+			}
+			witness := map[string]any{"delay_ms": delay, "swap": swap, "size": size, "result": describe(res), "planned": hexd(digest), "disk": hexd(disk), "on_disk": onDisk, "problems": probs}
+			sig := map[string]string{"stream": "large-cancel", "kind": map[bool]string{true: "swap", false: "create"}[swap]}
+			if claim && (!onDisk || !bytes.Equal(disk, digest)) {
+				sig["rule"] = "claimed-planned-file-has-other-content"
+				r.Violation(sig, fmt.Sprintf("a cancelled cross-device copy of a %d MiB file: the result claims the planned file %s but the disk holds %s", size>>20, short(digest), hexd(disk)), witness)
+			} else if onDisk && !bytes.Equal(disk, digest) && !bytes.Equal(disk, oldDigest) {
+				sig["rule"] = "foreign-content-in-root"
+				r.Violation(sig, fmt.Sprintf("a cancelled cross-device copy of a %d MiB file left content %s in the root (planned %s)", size>>20, short(disk), short(digest)), witness)
+			}
+			if temps := temporaries(root); len(temps) > 0 {
+				r.Count("large_cancel_temporaries_left", int64(len(temps)))
+			}
+			outcome := "completed"
+			if preempted && !claim {
+				outcome = "preempted"
+				r.Count("large_copies_preempted", 1)
+			} else if !claim {
+				outcome = "not-applied"
+			}
+			r.Distinct(fmt.Sprintf("large-cancel|swap=%v|%s", swap, outcome))
+		}()
+	}
 }
